@@ -25,6 +25,26 @@ use quil_rs::instruction::{
 use quil_rs::program::analysis::{BasicBlockScheduleError, ControlFlowGraph};
 use quil_rs::program::scheduling::{ComputedScheduleError, ScheduleSeconds, ScheduledProgram};
 use quil_rs::program::{Calibrations, MatchedFrames};
+
+/// A non-default handler (like the one in quil-rs's own `simplify` test): `PRAGMA USEALL` uses every frame of
+/// the program, `PRAGMA USEX` the frames named "x"; everything else as the default handler. `simplify` must
+/// ask THE GIVEN handler, not `DefaultHandler`.
+struct PragmaHandler;
+
+impl InstructionHandler for PragmaHandler {
+    fn matching_frames<'p>(&self, program: &'p Program, instruction: &Instruction) -> Option<MatchedFrames<'p>> {
+        match instruction {
+            Instruction::Pragma(p) if p.name == "USEALL" => {
+                Some(MatchedFrames { used: program.frames.get_keys().into_iter().collect(), blocked: HashSet::new() })
+            }
+            Instruction::Pragma(p) if p.name == "USEX" => Some(MatchedFrames {
+                used: program.frames.get_keys().into_iter().filter(|f| f.name == "x").collect(),
+                blocked: HashSet::new(),
+            }),
+            _ => DefaultHandler.matching_frames(program, instruction),
+        }
+    }
+}
 use quil_rs::quil::Quil;
 use quil_rs::Program;
 
@@ -70,7 +90,7 @@ fn frames_sexp(p: &Program) -> Vec<Sexp> {
 
 /// every definition map of `p` in its own order; `body_info` adds what `simplify` looks at per instruction
 /// (computed against `inter`) when given
-fn program_sexp(p: &Program, inter: Option<&Program>) -> Sexp {
+fn program_sexp<H: InstructionHandler>(p: &Program, inter: Option<&Program>, handler: &H) -> Sexp {
     let cals: Vec<Sexp> = p.calibrations.to_instructions().iter().map(|i| st(text(i))).collect();
     let externs: Vec<Sexp> =
         p.extern_pragma_map.clone().into_iter().map(|(k, v)| list(vec![opt_str(k.as_ref()), st(text(&v))])).collect();
@@ -89,7 +109,7 @@ fn program_sexp(p: &Program, inter: Option<&Program>) -> Sexp {
         .map(|i| match inter {
             None => list(vec![st(text(i))]),
             Some(inter) => {
-                let used = match DefaultHandler.matching_frames(inter, i) {
+                let used = match handler.matching_frames(inter, i) {
                     Some(m) => sorted_frames(&m.used),
                     None => list(vec![]),
                 };
@@ -137,16 +157,15 @@ fn schedule_sexp(s: &ScheduleSeconds) -> (Sexp, Sexp) {
 }
 
 /// `(sched <per block: canonical schedule or error> ) (raw <per block: items in emission order>)`
-fn schedules(p: &Program) -> (Sexp, Sexp, Sexp) {
-    let handler = DefaultHandler;
+fn schedules<H: InstructionHandler>(p: &Program, handler: &H) -> (Sexp, Sexp, Sexp) {
     // (a) ScheduledProgram::from_program + ScheduledBasicBlock::as_schedule_seconds
-    let (a, raw) = match ScheduledProgram::from_program(p, &handler) {
+    let (a, raw) = match ScheduledProgram::from_program(p, handler) {
         Err(e) => (tagged("builderr", vec![atom(qvh::sched::error_variant(e.variant)), st(text(&e.instruction))]), list(vec![])),
         Ok(sp) => {
             let mut canon = Vec::new();
             let mut raws = Vec::new();
             for b in sp.basic_blocks() {
-                match b.as_schedule_seconds(p, &handler) {
+                match b.as_schedule_seconds(p, handler) {
                     Ok(s) => {
                         let (c, r) = schedule_sexp(&s);
                         canon.push(c);
@@ -169,7 +188,7 @@ fn schedules(p: &Program) -> (Sexp, Sexp, Sexp) {
     let b: Vec<Sexp> = ControlFlowGraph::from(p)
         .into_blocks()
         .iter()
-        .map(|blk| match blk.as_schedule_seconds(p, &handler) {
+        .map(|blk| match blk.as_schedule_seconds(p, handler) {
             Ok(s) => schedule_sexp(&s).0,
             Err(BasicBlockScheduleError::ScheduleError(e)) => {
                 tagged("err", vec![atom("sched"), atom(qvh::sched::error_variant(e.variant))])
@@ -185,14 +204,21 @@ fn schedules(p: &Program) -> (Sexp, Sexp, Sexp) {
 }
 
 fn run_case(ctx: &mut Ctx, p: &Program) {
-    let handler = DefaultHandler;
+    run_case_with(ctx, p, &DefaultHandler, "default")
+}
+
+fn run_case_with<H: InstructionHandler>(ctx: &mut Ctx, p: &Program, handler: &H, handler_name: &str) {
     let expanded = match p.expand_calibrations() {
         Ok(e) => e,
         Err(_) => {
-            // expansion errors are C17/C18's subject: simplify must report an error too
-            ctx.case(tagged("expand-error", vec![]), || match p.simplify(&handler) {
+            // expansion errors are C17/C18's subject: simplify must report an error too (and the error must
+            // be printable)
+            ctx.case(tagged("expand-error", vec![]), || match p.simplify(handler) {
                 Ok(_) => tagged("ok", vec![]),
-                Err(_) => tagged("err", vec![]),
+                Err(e) => {
+                    let _ = format!("{e} {e:#} {e:?}");
+                    tagged("err", vec![])
+                }
             });
             return;
         }
@@ -204,9 +230,9 @@ fn run_case(ctx: &mut Ctx, p: &Program) {
         Program::from_instructions(e.to_instructions())
     };
     let self_frames: Vec<Sexp> = frames_sexp(p);
-    let input = tagged("simp", vec![list(self_frames), program_sexp(&expanded, Some(&inter))]);
+    let input = tagged("simp", vec![atom(handler_name), list(self_frames), program_sexp(&expanded, Some(&inter), handler)]);
     ctx.case(input, || {
-        let s = match p.simplify(&handler) {
+        let s = match p.simplify(handler) {
             Ok(s) => s,
             Err(_) => return tagged("err", vec![]),
         };
@@ -223,27 +249,31 @@ fn run_case(ctx: &mut Ctx, p: &Program) {
                 ])
             })
             .collect();
-        let (ea, eraw, eb) = schedules(&expanded);
-        let (sa, sraw, sb) = schedules(&s);
+        let (ea, eraw, eb) = schedules(&expanded, handler);
+        let (sa, sraw, sb) = schedules(&s, handler);
         // simplifying again changes nothing
-        let idem = s.simplify(&handler).map(|t| t == s).unwrap_or(false);
+        let idem = s.simplify(handler).map(|t| t == s).unwrap_or(false);
+        // the result is a consistent program: rebuilding it from its own listing gives an equal program
+        // (this compares the used-qubit cache too), and a second call on the original gives the same result
+        let rebuilt = Program::from_instructions(s.to_instructions()) == s;
+        let again = p.simplify(handler).map(|t| t == s).unwrap_or(false);
         tagged(
             "ok",
             vec![
-                program_sexp(&s, None),
+                program_sexp(&s, None, handler),
                 boolean(same_avail),
                 boolean(inter_avail),
                 list(per_instruction),
                 list(vec![ea, eb]),
                 list(vec![sa, sb]),
                 boolean(eraw == sraw),
-                boolean(idem),
+                boolean(idem && rebuilt && again),
             ],
         )
     });
 }
 
-const FRAMES: [(&str, &str, &str); 7] = [
+const FRAMES: [(&str, &str, &str); 9] = [
     ("0", "x", "SAMPLE-RATE: 4.0"),
     ("0", "y", "SAMPLE-RATE: 8.0"),
     ("1", "x", "SAMPLE-RATE: 4.0"),
@@ -251,16 +281,32 @@ const FRAMES: [(&str, &str, &str); 7] = [
     ("2", "x", "INITIAL-FREQUENCY: 1.0"),
     ("5", "far", "SAMPLE-RATE: 2.0"),
     ("1 0", "z", "SAMPLE-RATE: 2.0"),
+    // frame names shared with a waveform / an extern
+    ("0", "w4", "SAMPLE-RATE: 4.0"),
+    ("0", "f1", "SAMPLE-RATE: 2.0"),
 ];
-const WAVEFORMS: [&str; 3] = ["DEFWAVEFORM w4:\n    1, 1, 1, 1\n", "DEFWAVEFORM w2:\n    1, 1\n", "DEFWAVEFORM unused_wf:\n    1\n"];
-const EXTERNS: [&str; 4] = [
+const WAVEFORMS: [&str; 6] = [
+    "DEFWAVEFORM w4:\n    1, 1, 1, 1\n",
+    "DEFWAVEFORM w2:\n    1, 1\n",
+    "DEFWAVEFORM unused_wf:\n    1\n",
+    // DEFINED waveforms invoked with template-named arguments: their duration is sample count / SAMPLE-RATE,
+    // not the `duration` argument
+    "DEFWAVEFORM ramp(%duration):\n    %duration, 1, 1, 1\n",
+    "DEFWAVEFORM flat(%duration, %iq):\n    %iq, 1\n",
+    // a waveform named like an extern
+    "DEFWAVEFORM f1:\n    1, 1\n",
+];
+const EXTERNS: [&str; 6] = [
     "PRAGMA EXTERN f1 \"(x : INTEGER)\"\n",
     "PRAGMA EXTERN f2 \"INTEGER (x : mut REAL)\"\n",
     "PRAGMA EXTERN f3 \"(x : REAL[])\"\n",
     // no name: stored under the key `None`, never kept
     "PRAGMA EXTERN \"(x : INTEGER)\"\n",
+    // an extern named like a waveform; an extern pragma with two arguments (keyed by the first)
+    "PRAGMA EXTERN w4 \"(x : INTEGER)\"\n",
+    "PRAGMA EXTERN f4 extra \"(x : INTEGER)\"\n",
 ];
-const CALS: [&str; 7] = [
+const CALS: [&str; 8] = [
     "DEFCAL A 0:\n    PULSE 0 \"x\" flat(duration: 1.0, iq: 1.0)\n",
     "DEFCAL B 0 1:\n    FENCE 1\n    PULSE 0 1 \"z\" w4\n",
     "DEFCAL C q:\n    DELAY q 0.5\n    A q\n    SHIFT-PHASE q \"x\" 1.0\n",
@@ -268,9 +314,11 @@ const CALS: [&str; 7] = [
     "DEFCAL FAR 7:\n    PULSE 7 \"nowhere\" w4\n",
     "DEFCAL MEASURE 0 addr:\n    CAPTURE 0 \"y\" flat(duration: 0.25, iq: 1.0) addr\n",
     "DEFCAL R 0:\n    RESET\n    PULSE 0 \"x\" w2\n",
+    "DEFCAL E 0:\n    PULSE 0 \"x\" ramp(duration: 3.0)\n    CAPTURE 0 \"y\" f1 b[0]\n",
 ];
-const DECLS: &str = "DECLARE a INTEGER[2]\nDECLARE b REAL[2]\nDECLARE c BIT[2]\nDECLARE unused_region BIT\n";
-const OTHER_DEFS: &str = "DEFGATE H2:\n    1, 0\n    0, 1\nDEFCIRCUIT BELL q:\n    H2 q\n";
+// regions, gates and circuits include names shared with waveforms / externs (`w4`, `f1`)
+const DECLS: &str = "DECLARE a INTEGER[2]\nDECLARE b REAL[2]\nDECLARE c BIT[2]\nDECLARE unused_region BIT\nDECLARE f1 INTEGER[2]\nDECLARE w4 REAL[1] SHARING b OFFSET 1 REAL\n";
+const OTHER_DEFS: &str = "DEFGATE H2:\n    1, 0\n    0, 1\nDEFGATE w4:\n    1, 0\n    0, 1\nDEFCIRCUIT BELL q:\n    H2 q\nDEFCIRCUIT f1 q:\n    w4 q\n";
 
 fn header(frames: u32, wfs: u32, exts: u32, cals: u32) -> String {
     let mut s = String::from(DECLS);
@@ -300,7 +348,19 @@ fn header(frames: u32, wfs: u32, exts: u32, cals: u32) -> String {
 
 /// body lines over the alphabets: pulses on defined / undefined frames with defined / template / unused
 /// waveforms, calibrated gates, CALLs, RESET with and without qubit, fences, delays, classical code
-const BODY_LINES: [&str; 28] = [
+const BODY_LINES: [&str; 40] = [
+    "PULSE 0 \"x\" ramp(duration: 5.0)",
+    "CAPTURE 0 \"y\" ramp(duration: 2.0) b[0]",
+    "PULSE 0 \"x\" flat(duration: 1.0, iq: 1.0)",
+    "PULSE 0 \"x\" f1",
+    "PULSE 0 \"w4\" w4",
+    "PULSE 0 \"f1\" flat(duration: 0.5, iq: 1.0)",
+    "CALL w4 a[0]",
+    "CALL f4 a[0]",
+    "CALL f1 f1[0]",
+    "E 0",
+    "PRAGMA USEALL",
+    "PRAGMA USEX",
     "PULSE 0 \"x\" w4",
     "PULSE 0 \"y\" w4",
     "NONBLOCKING PULSE 0 \"x\" w2",
@@ -361,13 +421,29 @@ fn run(ctx: &mut Ctx) {
         // a nameless PRAGMA EXTERN (key None): never kept; the expanded program cannot be scheduled at all
         format!("{}PULSE 0 \"x\" w4\nCALL f1 a[0]\n", header(0x7f, 7, 15, 0x7f)),
         format!("{}PULSE 0 \"x\" w4\n", header(0x01, 1, 8, 0)),
+        // a DEFINED waveform invoked with a template-named argument: duration = 4 samples / 4 Hz = 1 s, not 5 s
+        format!("{}PULSE 0 \"x\" ramp(duration: 5.0)\nPULSE 0 \"x\" w4\n", header(0x01, 0x09, 0, 0)),
+        format!("{}E 0\nCAPTURE 0 \"y\" ramp(duration: 2.0) b[0]\n", header(0x03, 0x3f, 0, 0x80)),
+        format!("{}PULSE 0 \"x\" flat(duration: 1.0, iq: 1.0)\n", header(0x01, 0x10, 0, 0)),
+        // names shared across definition kinds: waveform f1 / extern f1 / region f1 / frame "f1" / circuit f1,
+        // waveform w4 / extern w4 / gate w4 / frame "w4" / region w4 — each used through one kind only
+        format!("{}PULSE 0 \"x\" f1\n", header(0x1ff, 0x3f, 0x37, 0)),
+        format!("{}CALL f1 f1[0]\n", header(0x1ff, 0x3f, 0x37, 0)),
+        format!("{}CALL w4 a[0]\n", header(0x1ff, 0x3f, 0x37, 0)),
+        format!("{}PULSE 0 \"w4\" flat(duration: 0.5, iq: 1.0)\n", header(0x1ff, 0x2f, 0x37, 0)),
+        format!("{}PULSE 0 \"f1\" w4\nCALL f4 a[0]\n", header(0x1ff, 0x3f, 0x37, 0)),
         // recursive calibration
         "DEFCAL X 0:\n    X 0\nX 0\n".to_string(),
     ];
     for t in &corpus {
-        if let Some(p) = parse(t) {
-            run_case(ctx, &p);
-        }
+        let p = parse(t).unwrap_or_else(|| panic!("corpus text does not parse: {t}"));
+        run_case(ctx, &p);
+    }
+    // a non-default handler: PRAGMA USEALL keeps every frame, PRAGMA USEX the frames named "x"
+    for body in ["PRAGMA USEALL\n", "PRAGMA USEX\nPULSE 0 \"y\" w4\n", "PULSE 0 \"y\" w4\n", "PRAGMA USEALL\nA 0\nCALL f1 a[0]\n"] {
+        let p = parse(&format!("{all}{body}")).expect("parse");
+        run_case_with(ctx, &p, &PragmaHandler, "pragma");
+        run_case(ctx, &p);
     }
     // a DEFFRAME / DEFWAVEFORM / PRAGMA EXTERN that exists only inside a calibration body (API-built)
     {
@@ -399,12 +475,15 @@ fn run(ctx: &mut Ctx) {
         "FENCE 1",
         "DELAY 0 0.5",
         "MOVE a[0] 1",
+        "PULSE 0 \"x\" ramp(duration: 5.0)",
+        "PULSE 0 \"x\" f1",
+        "CALL w4 a[0]",
     ];
     let frame_masks: &[u32] = if ctx.quick() { &[0x0, 0x3, 0xb, 0x2b] } else { &[0x0, 0x1, 0x3, 0x9, 0xb, 0x2b, 0x4b, 0x7f] };
     let cal_masks: &[u32] = if ctx.quick() { &[0x0, 0x19] } else { &[0x0, 0x1, 0x9, 0x19, 0x18] };
     for &fm in frame_masks {
-        for wm in 0..4u32 {
-            for em in [0u32, 3] {
+        for wm in [0u32, 1, 3, 0x0b, 0x29, 0x10] {
+            for em in [0u32, 3, 0x13] {
                 for &cm in cal_masks {
                     let h = header(fm, wm, em, cm);
                     for (i, l1) in lines.iter().enumerate() {
@@ -424,7 +503,13 @@ fn run(ctx: &mut Ctx) {
     let n_random = if ctx.quick() { 4000 } else { 250_000 };
     let mut rng = ctx.rng(35);
     // lines that have a duration (so that the schedule is computed, not an error), given calibrations A, B, C
-    const TIMED: [&str; 20] = [
+    const TIMED: [&str; 26] = [
+        "PULSE 0 \"x\" ramp(duration: 5.0)",
+        "CAPTURE 0 \"y\" ramp(duration: 2.0) b[0]",
+        "PULSE 0 \"x\" flat(duration: 1.0, iq: 1.0)",
+        "PULSE 0 \"x\" f1",
+        "PULSE 0 \"w4\" w4",
+        "E 0",
         "PULSE 0 \"x\" w4",
         "PULSE 0 \"y\" w4",
         "NONBLOCKING PULSE 0 \"x\" w2",
@@ -448,10 +533,10 @@ fn run(ctx: &mut Ctx) {
     ];
     for _ in 0..n_random {
         let timed_only = rng.chance(1, 2);
-        let cal_mask = if timed_only { (rng.below(128) as u32 & !0x48) | 0x07 } else { rng.below(128) as u32 };
-        let wf_mask = if timed_only { rng.below(8) as u32 | 0x03 } else { rng.below(8) as u32 };
-        let frame_mask = if timed_only && rng.chance(3, 4) { rng.below(128) as u32 | 0x0f } else { rng.below(128) as u32 };
-        let ext_mask = rng.below(8) as u32 | if rng.chance(1, 10) { 8 } else { 0 };
+        let cal_mask = if timed_only { (rng.below(256) as u32 & !0x48) | 0x07 } else { rng.below(256) as u32 };
+        let wf_mask = if timed_only { rng.below(64) as u32 | 0x03 } else { rng.below(64) as u32 };
+        let frame_mask = if timed_only && rng.chance(3, 4) { rng.below(512) as u32 | 0x0f } else { rng.below(512) as u32 };
+        let ext_mask = rng.below(8) as u32 | if rng.chance(1, 10) { 8 } else { 0 } | ((rng.below(4) as u32) << 4);
         let h = header(frame_mask, wf_mask, ext_mask, cal_mask);
         let len = rng.below(9);
         let mut body = String::new();
@@ -475,7 +560,11 @@ fn run(ctx: &mut Ctx) {
             body.push('\n');
         }
         if let Some(p) = parse(&format!("{h}{body}")) {
-            run_case(ctx, &p);
+            if rng.chance(1, 4) {
+                run_case_with(ctx, &p, &PragmaHandler, "pragma");
+            } else {
+                run_case(ctx, &p);
+            }
         }
     }
 }
